@@ -6,7 +6,9 @@ export GOFLAGS=-mod=mod GOPROXY=off GOSUMDB=off GOTOOLCHAIN=local
 C=$1; P=$2; F=$3
 if [ -n "$(git -C /repo status --porcelain --untracked-files=no)" ]; then echo "REFUSING: /repo has uncommitted changes"; exit 2; fi
 git -C /repo show $C -- . ':!*zz_verif*' | git -C /repo apply -R || { echo "cannot revert $C"; git -C /repo checkout -- .; exit 2; }
+EVSAVE=$(mktemp); cp /verif/evidence/$P.json $EVSAVE 2>/dev/null
 if [ -n "$F" ]; then OUT=$(timeout 1500 /verif/bin/gocv check -verif /verif -repo /repo -prop $P -func "$F" -timeout 20 2>&1); else OUT=$(timeout 3000 /verif/check $P quick 2>&1); fi
 git -C /repo checkout -- .
+cp $EVSAVE /verif/evidence/$P.json 2>/dev/null; rm -f $EVSAVE
 echo "$OUT" | grep -E "^VIOLATION|^property" | sed 's/replay=[^ ]* //' | cut -c1-240
 echo "$OUT" | grep -q "^VIOLATION" && echo "CANARY $C: detected" || echo "CANARY $C: MISSED"
